@@ -13,7 +13,7 @@ EXPLANATION = (
     "and the offsets are in bytes (x size_of::<i32>() on the writer, / 4 and % 4 tests on the reader), and keys are written in "
     "unsigned order.  R3: Snap::type_id's unwrap of the registry lookup is justified by the MissingUuidType clause of "
     "build_from_raw (the clause must test exactly the key key(TYPE_ID_EX, raw_type_id)).  R4: key / key_to_raw_type_id / "
-    "key_to_id are mutually inverse bit packings (bit-provenance evaluation).  Not decided: indistinguishability of all "
+    "key_to_id are mutually inverse bit packings (bit-provenance evaluation).  R1b: build_from_raw clears the registry before rebuilding it.  R2b (tight guards): read_from_ints admits items of length 0 (the guards give start <= end and do not force start < end) and recycle counts the registry id OFFSET_EXTENDED_TYPE_ID itself.  Not decided: indistinguishability of all "
     "snapshots after a round trip (value level)."
 )
 ASSUMPTIONS = ["BTreeMap iteration order is key order (std)"]
